@@ -70,6 +70,14 @@ var probeFuncs = map[string]string{
 	"src/core:BuildState.checkForCycles":   "checkForCycles",
 }
 
+// Functions (without results) whose body is skipped while the named verifsim flag is set. Used only
+// by the C31 harness: K logical invocations share one process and therefore the package-level
+// repoLockFile; the first one to finish must not close the descriptor the others still use (real
+// processes each have their own).
+var skipFuncs = map[string]string{
+	"src/core:ReleaseRepoLock": "SharedRepoLock",
+}
+
 var syncMethods = map[string]bool{
 	"Lock": true, "RLock": true, "Do": true, "Wait": true, "Load": true, "Store": true,
 	"Add": true, "Swap": true, "CompareAndSwap": true, "Done": true, "TryLock": true,
@@ -484,6 +492,9 @@ func processFile(fset *token.FileSet, f *ast.File, src []byte, info *types.Info,
 				if extraYieldFuncs[k] {
 					c.insert(x.Body.Lbrace+1, fmt.Sprintf(" verifsim.YieldExtra(%q); ", c.site(x.Body.Lbrace)))
 					st.Extra++
+				}
+				if flag, ok := skipFuncs[k]; ok && (x.Type.Results == nil || len(x.Type.Results.List) == 0) {
+					c.insert(x.Body.Lbrace+1, fmt.Sprintf(" if verifsim.%s { return }; ", flag))
 				}
 				if p, ok := probeFuncs[k]; ok {
 					c.insert(x.Body.Lbrace+1, fmt.Sprintf(" verifsim.Probe(%q); ", p))
